@@ -8,7 +8,7 @@ git -C /repo worktree remove --force $WT >/dev/null 2>&1
 rm -rf $WT $MC $ROOT
 git -C /repo worktree add -q --detach $WT HEAD || exit 2
 if ! git -C $WT apply "$PATCH"; then echo "PATCH DOES NOT APPLY"; git -C /repo worktree remove --force $WT; exit 2; fi
-mkdir -p $ROOT && cp /verif/known_findings.json $ROOT/
+mkdir -p $ROOT/.build && cp /verif/known_findings.json $ROOT/ && cp /verif/.build/libhashseed.so $ROOT/.build/ 2>/dev/null
 cp -r /verif/mc $MC
 sed -i "s#/repo/#$WT/#g" $MC/Cargo.toml $MC/src/*.rs $MC/src/*/*.rs
 rm -rf $MC/.cargo
